@@ -4,7 +4,8 @@
 (*   join, column policy cols)  or  df_sum / df_mean / df_count (union index, column policy)     *)
 (* on real operands xs (series, frames, scalars; `form` says how they were handed over: two      *)
 (* arguments, one list, a list and an argument ... - the specification reduces left to right     *)
-(* whatever the form), with the operands after the call and the encoded outcome.                 *)
+(* whatever the form), with the operands after the call, the lists handed over before and after  *)
+(* the call (the numbers of the operands they hold, by identity) and the encoded outcome.        *)
 EXTENDS Series, Batch
 
 CellsOf(o) == IF IsScalar(o) THEN {o.v} ELSE IF IsS(o) THEN Range(o.v) ELSE UNION {Range(o.v[j]) : j \in 1..Len(o.v)}
@@ -29,6 +30,7 @@ WhyNotOp(w, g) ==
     ELSE "values"
 Verdict(o) ==
     IF o.after # o.xs THEN "operand_changed"
+    ELSE IF o.lists_after # o.lists THEN "container_changed"     \* a list handed over holds the operands it held, by identity
     ELSE IF ~InDomain(o) THEN "outside_domain"
     ELSE IF o.out.kind = "exc" THEN "raised"
     ELSE LET want == IF o.op \in AggOps THEN {Agg(o.op, o.xs, o.cols)} ELSE OpOutcomes(o.op, o.xs, o.join, o.cols)
